@@ -161,6 +161,7 @@ package sse
 //@   iter arg: q.buf[ringidx(startAt, len(q.buf), iterk)]
 
 //@ func queue.each$1
+//@   requires yield != nil
 //@   invariant 0 straight: startAt <= i && i <= q.tail && ncalls() == old(ncalls()) + i - startAt
 //@   invariant 0 straight_trace: forall(c, old(ncalls()), ncalls(), crecv(c) == yield && cret(c, "yield", 0) && carg(c, "yield", 0) == startAt + (c - old(ncalls())) && carg(c, "yield", 1) == q.buf[startAt + (c - old(ncalls()))])
 //@   invariant 1 upper: startAt <= i && i <= len(q.buf) && ncalls() == old(ncalls()) + i - startAt
@@ -278,7 +279,7 @@ package sse
 // ---------------------------------------------------------------------------------------------------------
 
 //@ pure sortedexp(q) = forall(i, 0, q.count, forall(j, i, q.count, at(q, i).exp <= at(q, j).exp))
-//@ pure vok(v) = wf(&v.messages) && deadzero(&v.messages) && v.ttl > 0 && sortedexp(&v.messages) &&
+//@ pure vok(v) = wf(&v.messages) && deadzero(&v.messages) && v.ttl > 0 && v.Now != nil && sortedexp(&v.messages) &&
 //@     forall(k, 0, v.messages.count, msgok(at(&v.messages, k).messageWithTopics)) &&
 //@     (v.currentID != nil ==> allocated(v.currentID) && autoinv(&v.messages, *v.currentID))
 
@@ -770,6 +771,8 @@ package sse
 //@ func Connection.dispatch
 //@   traced
 //@   requires c != nil && connok(c)
+// subscribing a nil callback is the caller's error (it would panic here, at the first event): assumed, listed in the evidence
+//@   assume registered_callbacks_are_not_nil: all(k, "int", has(c.callbacksAll, k) ==> c.callbacksAll[k] != nil) && all(e, "string", all(k, "int", reg(c, e, k) ==> cbof(c, e, k) != nil))
 //@   ensures every_callback_of_the_type_called: all(k, "int", has(typedcbs(c, ev), k) ==> old(ncalls()) <= callatkey(0, k) && callatkey(0, k) < ncalls() && typedcall(c, ev, callatkey(0, k)) && ckeyint(callatkey(0, k)) == k)
 //@   ensures every_subscribe_to_all_callback_called: all(k, "int", has(c.callbacksAll, k) ==> old(ncalls()) <= callatkey(1, k) && callatkey(1, k) < ncalls() && allcall(c, callatkey(1, k)) && ckeyint(callatkey(1, k)) == k)
 //@   ensures only_subscribed_callbacks_each_once: forall(x, old(ncalls()), ncalls(), iscall(x, "cb") && carg(x, "cb", 0) == ev && (typedcall(c, ev, x) || allcall(c, x)))
@@ -804,6 +807,7 @@ package sse
 //@ pure yieldev(x) = carg(x, "yield", 0)
 
 //@ func read$1
+//@   requires callbacks_given: pf != nil && yield != nil
 //@   ensures no_event_together_with_an_error: forall(x, old(ncalls()), ncalls(), isyield(x) && yielderr(x) != nil ==> yieldev(x).LastEventID == "" && yieldev(x).Type == "" && yieldev(x).Data == "")
 //@   ensures nothing_after_an_error: forall(x, old(ncalls()), ncalls(), isyield(x) && yielderr(x) != nil ==> x == ncalls()-1)
 //@   ensures stops_when_told: forall(x, old(ncalls()), ncalls()-1, isyield(x) ==> cret(x, "yield", 0))
@@ -846,13 +850,15 @@ package sse
 
 // the onRetry callback Connection.read hands to the interpreter: the server's value, in milliseconds, goes to setRetry
 //@ func Connection.read$2
+//@   requires setRetry != nil
 //@   ensures server_retry_value_reaches_the_schedule_in_milliseconds: ncalls() == old(ncalls()) + 1 && iscall(old(ncalls()), "setRetry") && carg(old(ncalls()), "setRetry", 0) == r * 1000000
 
 //@ pure isdispatch(x) = iscall(x, "dispatch")
 //@ pure dispatched(x) = carg(x, "dispatch", 0)
 
 //@ func Connection.read
-//@   requires c != nil && connok(c)
+//@   requires c != nil && connok(c) && setRetry != nil
+//@   assume registered_callbacks_are_not_nil: all(k, "int", has(c.callbacksAll, k) ==> c.callbacksAll[k] != nil) && all(e, "string", all(k, "int", reg(c, e, k) ==> cbof(c, e, k) != nil))
 //@   modifies c.lastEventID
 //@   ensures never_nil: result != nil
 //@   ensures id_unchanged_without_dispatch: (forall(x, old(ncalls()), ncalls(), !isdispatch(x))) ==> c.lastEventID == old(c.lastEventID)
@@ -896,6 +902,7 @@ package sse
 //@ pure nobody(b) = b == nil || b == http.NoBody
 
 //@ func Connection.doConnect
+//@   requires setRetry != nil
 //@   requires c != nil && connok(c) && c.request != nil && c.request.Header != nil && c.client.HTTPClient != nil && c.client.ResponseValidator != nil
 //@   modifies c.isRetry, c.lastEventID, c.request.Body, mapcell(c.request.Header)
 //@   ensures never_nil: err != nil
